@@ -503,4 +503,29 @@ def c14(ctx):
                       'verifier home, authenticated cleartext compared with the in-memory entries.')
 
 
-CHECKS = {'C14': c14, 'C05': c05, 'C11': c11, 'C03': c03, 'C10': c10, 'C12': c12, 'C13': c13, 'C01': c01, 'C02': c02, 'C04': c04, 'C07': c07, 'C08': c08, 'C09': c09}
+def c15(ctx):
+    from . import drv_findtop as d
+    thorough = ctx.tier == 'thorough'
+    rng = random.Random(ctx.seed)
+    ctx.mc('FindTop', 'MC_FindTop_4.cfg' if thorough else 'MC_FindTop.cfg', timeout=3000)
+    scns = list(d.all_chains(3 if thorough else 2))
+    for n in (3, 4, 5, 6):
+        scns += [d.random_chain(rng, n) for _ in range(20000 if thorough else 1500)]
+    chunks = [(scns[k:k + 300], ctx.seed * 17 + k) for k in range(0, len(scns), 300)]
+    recs = [r for o in core.pool_map(d.run_chains, chunks, chunksize=1) for r in o]
+    for k in range(0, len(recs), 150000):
+        ctx.judge('TraceFindTop', 'TraceFindTop.cfg', recs[k:k + 150000], None, {'module': 'TraceFindTop'},
+                  sig=lambda r: hash(json_key({a: b for a, b in r.items() if a not in ('id', 'names')})))
+    ctx.extra['chains'] = len(recs)
+    ctx.extra['exhaustive_depth'] = 3 if thorough else 2
+    ctx.sample(recs[len(recs) // 3])
+    ctx.assumptions += ['device boundaries are simulated by rewriting st_dev in the os.stat/os.fstat results seen by '
+                        'gemato.find_top_level (a real second file system per scenario is not practical)',
+                        'a non-IGNORE entry equal to the start path preceding the IGNORE line is not generated (lenient)']
+    return ctx.finish(rule='FindTop.tla: upward walk vs the declarative Outermost for all chains of 3 (quick) / 4 (thorough) levels '
+                      'x Manifest none/plain/compressed x IGNORE none/path/ancestor/sibling/look-alike x device cut x start x '
+                      'allow_compressed x allow_xdev by TLC; the same chains (exhaustive to depth 2/3, sampled to depth 6) built '
+                      'as real directories with hostile names and run through the real find_top_level_manifest.')
+
+
+CHECKS = {'C15': c15, 'C14': c14, 'C05': c05, 'C11': c11, 'C03': c03, 'C10': c10, 'C12': c12, 'C13': c13, 'C01': c01, 'C02': c02, 'C04': c04, 'C07': c07, 'C08': c08, 'C09': c09}
